@@ -89,7 +89,7 @@ def run_stream(name, drv, model, make_gen, make_oracle, seed, episodes, nops, he
                 st.opkinds[kind] = st.opkinds.get(kind, 0) + 1
                 window = (window + [kind + ">" + reply_class(ri)])[-3:]
                 st.distinct.add(hashlib.md5("|".join(window).encode()).hexdigest()[:12])
-                if ri.startswith("panic") or ri in ("hang", "dead", "spin"):
+                if ri.startswith("panic") or ri.startswith("dead") or ri in ("hang", "spin"):
                     fails.append(Failure("crash", name, list(ops), len(ops) - 1, op, ri, seed, ep))
                     break
                 msg = orc.observe(op, ri)
